@@ -35,14 +35,27 @@ def strategies():
 
 
 def monitor_strategy(ctx, name, hf, key, shipped):
-    """purity, length, range, prefix for one key"""
+    """purity, length, range, prefix for one key.  Depths are asked in ascending AND descending order and every answer is kept
+    and re-examined at the end, so an answer that a later call mutates (shared/cached list) is observed."""
+    kept = {}
+    for d in DEPTHS:  # ascending: small depth first
+        kept[d] = hf(key, d)
+        ctx.check(isinstance(kept[d], list) and len(kept[d]) == d, f"{name}(key, {d}) returned {len(kept[d])} values", key=key)
     full = hf(key, 8)
     ctx.check(hf(key, 8) == full, f"{name} is not deterministic", key=key)
     ctx.check(isinstance(full, list) and len(full) == 8, f"{name}(key, 8) does not return 8 values", got=full, key=key)
-    for d in DEPTHS:
+    for d in reversed(DEPTHS):  # descending
         part = hf(key, d)
         ctx.check(len(part) == d, f"{name}(key, {d}) returned {len(part)} values", key=key)
         ctx.check(part == full[:d], f"{name}(key, {d}) is not a prefix of {name}(key, 8)", key=key, part=part, full=full)
+    for d in DEPTHS:
+        ctx.check(len(kept[d]) == d and kept[d] == full[:d], f"an answer of {name}(key, {d}) was changed by a later call (not a pure function)", key=key,
+                  kept=kept[d], want=full[:d])
+    # the caller owns the returned list: scribbling on it must not influence later answers
+    r = hf(key, 3)
+    r.append(12345)
+    r[0] = -1
+    ctx.check(hf(key, 3) == full[:3] and hf(key, 4) == full[:4], f"{name}: mutating a returned list changed a later answer", key=key)
     if shipped:
         for v in full:
             ctx.check(isinstance(v, int) and 0 <= v <= refimpl.M64, f"{name} returned a value outside 0..2^64-1", key=key, value=v)
